@@ -254,7 +254,7 @@ fn run_case(ctx: &Ctx, index: u64, rep: &mut Report) {
             }
         }
         "cli" => {
-            let g = prog::generate(&mut rng, &GenOpts { inputs: true, stops: false, rnd: false, kf_permille: 0, failure_permille: 100, ..GenOpts::default() });
+            let g = prog::generate(&mut rng, &GenOpts { inputs: true, stops: false, rnd: true, kf_permille: 0, failure_permille: 100, ..GenOpts::default() });
             let lines = g.prog.text_lines();
             let text = lines.join("\n") + "\n";
             // how many replies does a run consume?
@@ -372,7 +372,7 @@ fn finalize(_tier: Tier, rep: &mut Report) -> Finalize {
         ],
         assumptions: vec![
             "the CLI is the debug build of /repo's abasic-cli (hooks off), run with HOME redirected to a scratch directory, NO_COLOR=1 and piped stdio (rustyline then prints no prompt)".into(),
-            "exit codes are recorded but not compared (the property does not constrain them); programs use no RND (the CLI seeds from the clock)".into(),
+            "exit codes are recorded but not compared (the property does not constrain them); both modes seed the generator with the milliseconds elapsed since a timestamp taken an instant earlier, i.e. 0".into(),
         ],
         exhaustive: false,
         extras: json!({}),
